@@ -724,6 +724,68 @@ Proof.
   by apply map_swap_remove_index_ok.
 Qed.
 
+Lemma store_res_eq {X} (x : X) (s0 : store) h1 h2 q1 q2 n :
+  h1 = h2 -> q1 = q2 ->
+  Ok (S:=store) (x, set_size (set_qp (set_heap s0 h1) q1) n) =
+  Ok (x, set_size (set_qp (set_heap s0 h2) q2) n).
+Proof. by intros -> ->. Qed.
+
+Lemma remove_eval s k i pos n1 e :
+  WF keq s -> ssize s = S n1 -> get_index_of keq hash (smap s) k = Some i ->
+  smap s !! i = Some e -> qp s !! i = Some pos ->
+  remove keq hash s k =
+  Ok (Some (e.1, e.2, pos),
+      set_size (set_qp (set_heap (set_map s (aswap_remove (smap s) i))
+         (ren n1 i <$> aswap_remove (heap s) pos))
+         (ren n1 pos <$> aswap_remove (qp s) i)) n1).
+Proof.
+  intros H Hn Hk He Hpos.
+  pose proof (WF_qp_heap _ _ _ H Hpos) as Hhp.
+  pose proof H as (Hm&Ht&_). rewrite Hn in Ht.
+  pose proof Ht as (Hh&Hq&H1&H2).
+  destruct (lookup_lt_is_Some_2 (heap s) n1) as [el Hel]; [lia|].
+  destruct (lookup_lt_is_Some_2 (qp s) n1) as [ql Hql]; [lia|].
+  unfold remove. rewrite Hk, (map_swap_remove_index_ok _ _ _ He), Hn, sub1_ok.
+  cbn [mbind res_bind rbind].
+  rewrite (vswap_remove_ok _ _ _ Hpos). cbn [mbind res_bind rbind].
+  rewrite (vswap_remove_ok _ _ _ Hhp). cbn [mbind res_bind rbind].
+  unfold ren.
+  destruct (decide (i < n1));
+    [ rewrite (getu_ok _ _ ql) by tab Ht Hh Hq H1 H2; cbn [mbind res_bind rbind];
+      destruct (decide (ql = n1));
+      (rewrite setu_ok by tab Ht Hh Hq H1 H2); cbn [mbind res_bind rbind]
+    | cbn [mbind res_bind rbind] ];
+  (destruct (decide (pos < n1));
+    [ match goal with |- context [getu ?hh pos] =>
+        destruct (lookup_lt_is_Some_2 hh pos) as [hp Hp]; [tab Ht Hh Hq H1 H2|];
+        rewrite (getu_ok _ _ _ Hp); cbn [mbind res_bind rbind]
+      end;
+      destruct (decide (hp = n1));
+      (rewrite setu_ok by tab Ht Hh Hq H1 H2); cbn [mbind res_bind rbind]
+    | cbn [mbind res_bind rbind] ]);
+  apply store_res_eq; apply list_eq; intros p;
+  (destruct (decide (p < n1));
+     [ destruct (lookup_lt_is_Some_2 (heap s) p) as [xh Hxh]; [lia|];
+       destruct (lookup_lt_is_Some_2 (qp s) p) as [xq Hxq]; [lia|] | ]);
+  tab Ht Hh Hq H1 H2.
+Qed.
+
+Theorem remove_ok : remove_ok_stmt keq hash (P:=P).
+Proof.
+  intros Hk s k H. destruct (get_index_of keq hash (smap s) k) as [i|] eqn:Hi.
+  - destruct (get_index_of_Some _ _ _ Hk Hi) as (e&He&_).
+    assert (i < ssize s) as Hlt.
+    { rewrite <-(WF_length_smap _ H). by eapply lookup_lt_Some. }
+    destruct (WF_qp_is_Some s i H Hlt) as [pos Hpos].
+    pose proof (WF_qp_heap _ _ _ H Hpos) as Hhp.
+    destruct (ssize s) as [|n1] eqn:Hn; [lia|].
+    pose proof (remove_eval s k i pos n1 e H Hn Hi He Hpos) as Hev.
+    destruct (WF_removed s n1 pos i H Hn Hhp) as [HWF Hview].
+    eexists e, pos, _. split_and!; [exact Hev|done..| |cbn; lia|done].
+    by apply map_swap_remove_index_ok.
+  - unfold remove. by rewrite Hi.
+Qed.
+
 End StoreProofs.
 Print Assumptions eview_lookup.
 Print Assumptions eview_length.
@@ -731,8 +793,9 @@ Print Assumptions eview_perm.
 Print Assumptions prio_at_ok.
 Print Assumptions swap_ok.
 Print Assumptions swap_remove_ok.
-Print Assumptions hole_move_ok.
-Print Assumptions get_index_of_spec.
+Print Assumptions remove_ok.
 Print Assumptions set_entry_ok.
 Print Assumptions push_entry_ok.
 Print Assumptions identity_ok.
+Print Assumptions hole_move_ok.
+Print Assumptions get_index_of_spec.
